@@ -73,11 +73,11 @@ ATTRS = st.dictionaries(st.sampled_from(['Label', 'w', 'meta', 'lab']), ATTR_VAL
 ADD_KINDS = ['add', 'add', 'add', 'add', 'add', 'add_from', 'path', 'star', 'cycle', 'node', 'nodes_from']
 
 
-def _span(draw, model, key, base, horizon, want_reject=False):
+def _span(draw, model, key, base, horizon, want_reject=False, maxlen=4):
     """Choose (t, e) relative to the latest run of `key` (if any)."""
     lr = model.latest_run(key) if key is not None else None
     has_e = draw(st.booleans())
-    length = draw(st.integers(1, 4))
+    length = draw(st.integers(1, maxlen))
     if lr is None or not draw(st.integers(0, 4)):
         t = base + draw(st.integers(0, horizon))
     else:
@@ -109,7 +109,7 @@ def _span(draw, model, key, base, horizon, want_reject=False):
 @st.composite
 def history(draw, classes=('DynGraph', 'DynDiGraph'), removal=(True,), kinds=None, max_ops=12,
             min_ops=1, node_kinds=('int', 'str', 'tuple', 'fset', 'mixed'), rejects=None,
-            horizon=10, allow_missing_t=False, bases=None, attrs=True, uni=(3, 6), bulk_e=True):
+            horizon=10, allow_missing_t=False, bases=None, attrs=True, uni=(3, 6), bulk_e=True, maxlen=4):
     """Draw a case.  rejects: None = anchors include 'before' (rejections happen naturally),
     False = never generate a span that starts before the latest run."""
     cls = draw(st.sampled_from(classes))
@@ -138,13 +138,13 @@ def history(draw, classes=('DynGraph', 'DynDiGraph'), removal=(True,), kinds=Non
                 if draw(st.booleans()):
                     ui, vi = vi, ui
             key = model.key(dn_nodes[ui], dn_nodes[vi])
-            t, e = _span(draw, model, key, base, horizon, want_reject=rejects)
+            t, e = _span(draw, model, key, base, horizon, want_reject=rejects, maxlen=maxlen)
             op = ['add', ui, vi, t, e]
         elif kind == 'add_from':
             k = draw(st.integers(1, 4))
             pairs = [[draw(st.integers(0, nn - 1)), draw(st.integers(0, nn - 1))] for _ in range(k)]
             key0 = model.key(dn_nodes[pairs[0][0]], dn_nodes[pairs[0][1]])
-            t, e = _span(draw, model, key0, base, horizon, want_reject=rejects)
+            t, e = _span(draw, model, key0, base, horizon, want_reject=rejects, maxlen=maxlen)
             if not bulk_e:
                 e = None
             op = ['add_from', pairs, t, e]
@@ -155,7 +155,7 @@ def history(draw, classes=('DynGraph', 'DynDiGraph'), removal=(True,), kinds=Non
             if cls == 'DynDiGraph' and kind != 'path':
                 form = 'f'
             key0 = model.key(dn_nodes[seq[0]], dn_nodes[seq[1]])
-            t, e = _span(draw, model, key0, base, horizon, want_reject=rejects)
+            t, e = _span(draw, model, key0, base, horizon, want_reject=rejects, maxlen=maxlen)
             if form == 'm' or not bulk_e:
                 e = None
             op = [kind, seq, t, form, e]
